@@ -18,7 +18,7 @@ From Coq Require Import String ZArith Reals Lra List Permutation Bool.
 From Coq Require Import PrimFloat.
 Require Import PV.Base.Val PV.Base.Num PV.Base.NumR PV.Base.SqrtOps PV.Base.SqrtOpsR.
 Require Import PV.Gen.StatCounter PV.Gen.Covariance PV.Model.Stats.
-Require Import PV.Proofs.Stats PV.Proofs.StatsCov PV.Proofs.StatsGeneric PV.Proofs.StatsOrder PV.Proofs.StatsFloatSpec.
+Require Import PV.Proofs.Stats PV.Proofs.StatsCov PV.Proofs.StatsGeneric PV.Proofs.StatsOrder PV.Proofs.StatsSessions PV.Proofs.StatsFloatSpec.
 Import ListNotations.
 Open Scope R_scope.
 
@@ -101,6 +101,22 @@ Theorem C17_session_partial : forall lo hi rdds prog obs stack,
   Forall (fun o => TwoPass lo hi (fst o) (snd o)) stack /\
   Forall (fun o => TwoPass lo hi (fst o) (snd o) /\ exists parts, In parts rdds /\ snd o = concat parts) obs.
 Proof. exact session_two_pass. Qed.
+
+(* sessions on summary OBJECTS that several folds reuse: a pool of StatCounter objects (one per partition, plus fresh
+   empty ones and copies created on the way); merges into empty receivers, further merges into the same receiver, the
+   same partial merged into two receivers, the receiver merged back into a partial, self-merges, updates.  After EVERY
+   step EVERY live object -- not only the receiver -- represents exactly its own data and has its two-pass values: a
+   partial that was merged INTO something else is unchanged.  (That no two objects share state is the modelled
+   behaviour -- mergeStats copies field values, copy() is a deep copy -- tied to the code by the `objects` cases of the
+   correspondence, which compare every live object after every step.) *)
+Theorem C17_object_sessions_partial : forall lo hi parts prog tr,
+  sc_osession lo hi parts prog = Some tr ->
+  Forall (Forall (fun o => Rep lo hi (fst o) (snd o) /\ TwoPass lo hi (fst o) (snd o))) tr.
+Proof. exact sc_osession_rep. Qed.
+Theorem C17_cov_object_sessions_partial : forall parts prog tr,
+  cc_osession parts prog = Some tr ->
+  Forall (Forall (fun o => RepC (fst o) (snd o) /\ TwoPassC (fst o) (snd o))) tr.
+Proof. exact cc_osession_rep. Qed.
 
 (* the single clauses, unfolded for the reader (xs non-empty; max/min need the sentinels to bound the data) *)
 Theorem C17_mean_partial : forall lo hi parts, concat parts <> [] ->
@@ -218,6 +234,10 @@ Example session_instance :
     session 0 0 [[[1; 2]; [3]]; [[10]]] [SPush 0%nat; SPush 1%nat; SMerge; SObserve 0%nat; SPush 0%nat; SSelf; SFold 5] [] []
     = Some (obs, stack) /\ length obs = 1%nat /\ length stack = 2%nat.
 Proof. eexists. eexists. split; [reflexivity|]. split; reflexivity. Qed.
+Example object_session_instance :
+  exists tr, sc_osession 0 0 [[1; 2]; [7]] [ONew; OMerge 2%nat 0%nat; OMerge 2%nat 1%nat; ONew; OMerge 3%nat 0%nat; OMerge 0%nat 2%nat; OCopy 1%nat; OFold 4%nat 5]
+             = Some tr /\ length tr = 8%nat.
+Proof. eexists. split; reflexivity. Qed.
 (* ... and the invariant is not trivially true: a counter with a wrong mean does not represent the data *)
 Example rep_discriminates : ~ Rep 0 0 (mkSC 2 1 0 0 0 : @sc ROps) [1; 2].
 Proof. intros [_ H _ _ _]. cbn in H. lra. Qed.
